@@ -23,8 +23,18 @@ def value_grid(rng, widths, limit):
         return list(itertools.product(*[range(1 << w) for w in widths])), True
     vals = set()
     bnd = lambda n: sorted(set([0, 1, (1 << n) - 1, 1 << (n - 1), max(0, (1 << (n - 1)) - 1)]))   # noqa
-    for combo in itertools.product(*[bnd(w) for w in widths]):
-        vals.add(combo)
+    sets = [bnd(w) for w in widths]
+    size = 1
+    for s_ in sets:
+        size *= len(s_)
+    if size <= 4000:
+        for combo in itertools.product(*sets):
+            vals.add(combo)
+    else:       # many operands: all-zero, all-max and a sample of the boundary combinations
+        vals.add(tuple(0 for _ in widths))
+        vals.add(tuple((1 << w) - 1 for w in widths))
+        for _ in range(1500):
+            vals.add(tuple(rng.choice(s_) for s_ in sets))
     for _ in range(40):
         vals.add(tuple(gen.rand_value(rng, w) for w in widths))
     return sorted(vals), False
@@ -124,8 +134,74 @@ def seq_case(ctx, name, wa, wb, shifts, rng):
                 key, a, b, bad[0], tr[bad[0]][0], tr[bad[0]][1], a * b),
                 {'kind': 'seq', 'name': name, 'wa': wa, 'wb': wb, 'shifts': shifts, 'A': a, 'B': b})
             break
+    # a second start pulse, while the first multiplication is still in flight or after it is done: every start
+    # pulse begins a multiplication of the operands then present
+    for (a, b) in vals[:ctx.n(12, 100)]:
+        a0, b0 = rng.getrandbits(wa) | (1 << (wa - 1)), rng.getrandbits(wb) | 1
+        k = rng.randint(1, wa + 3)
+        steps = [{'A': a0, 'B': b0, 'start': 1}] + [{'A': a0, 'B': b0, 'start': 0} for _ in range(k - 1)] + \
+                [{'A': a, 'B': b, 'start': 1}] + [{'A': a, 'B': b, 'start': 0} for _ in range(ncyc)]
+        resp = ctx.driver.ask(simrun.lean_request(ser, steps, {}, {}, 0, model='spec', watch=['o', 'done']))
+        if not resp.get('ok'):
+            raise RuntimeError('spec rejected %s: %s' % (key, resp))
+        tr = resp['trace']
+        first = next((c for c in range(k + 1, len(tr)) if tr[c][1] == 1), None)
+        ctx.evaluations += 1
+        rep = {'kind': 'seq-restart', 'name': name, 'wa': wa, 'wb': wb, 'shifts': shifts, 'first': [a0, b0], 'second': [a, b],
+               'second_start_cycle': k}
+        if first is None or first > k + wa + 1:
+            ctx.violation('not-done-after-restart:' + name, '%s: A=%d B=%d started %d cycle(s) after a multiplication of %d x %d was started: '
+                          'done not raised within len(A)+1=%d cycles of that start' % (key, a, b, k, a0, b0, wa + 1), rep)
+            break
+        bad = [c for c in range(first, len(tr)) if tr[c][0] != a * b or tr[c][1] != 1]
+        if bad:
+            ctx.violation('wrong-product-after-restart:' + name, '%s: A=%d B=%d started %d cycle(s) after a multiplication of %d x %d was started: '
+                          'at cycle %d result=%d done=%d, product %d' % (key, a, b, k, a0, b0, bad[0], tr[bad[0]][0], tr[bad[0]][1], a * b), rep)
+            break
     ctx.distinct.add(key)
     ctx.count('generator', name)
+
+
+def seq_tie(ctx, name, wa, wb, shifts, rng):
+    """Tie of the Lean register-level model (Model/Lib/SeqMult.lean, about which the theorems
+    seq_mult_done_and_exact / seq_mult_exact_whenever_done speak) to the real netlist: random histories of
+    start pulses (also while a multiplication is in flight) and freely changing operands, compared cycle by
+    cycle on accum and done.  Returns (cases, mismatches)."""
+    pyrtl.reset_working_block()
+    A, B, start = Input(wa, 'A'), Input(wb, 'B'), Input(1, 'start')
+    try:
+        if name == 'simple_mult':
+            res, done = multipliers.simple_mult(A, B, start)
+        else:
+            res, done = multipliers.complex_mult(A, B, shifts, start)
+    except Exception:  # noqa  (reported by seq_case)
+        return 0, 0
+    o = Output(len(res), 'o')
+    o <<= res
+    dn = Output(1, 'done')
+    dn <<= done
+    ser = Ser(pyrtl.working_block())
+    n = bad = 0
+    for _ in range(ctx.n(3, 12)):
+        steps = []
+        for c in range(3 * wa + 8):
+            steps.append({'start': int(rng.random() < 0.25), 'A': rng.choice([0, 1, (1 << wa) - 1, rng.getrandbits(wa)]),
+                          'B': rng.choice([0, 1, (1 << wb) - 1, rng.getrandbits(wb)])})
+        resp = ctx.driver.ask(simrun.lean_request(ser, steps, {}, {}, 0, model='spec', watch=['o', 'done']))
+        if not resp.get('ok'):
+            raise RuntimeError('spec rejected %s: %s' % (name, resp))
+        mod = ctx.driver.ask({'cmd': 'seqmult', 'alen': wa, 'blen': wb, 'shifts': shifts or 1,
+                              'steps': [[s_['start'], s_['A'], s_['B']] for s_ in steps]})
+        if not mod.get('ok'):
+            raise RuntimeError('seqmult model: %s' % mod)
+        n += 1
+        got = [list(t) for t in resp['trace']]
+        if got != [list(t) for t in mod['trace']]:
+            bad += 1
+            c = next(i for i in range(len(got)) if got[i] != list(mod['trace'][i]))
+            ctx.extra.setdefault('seqmult_tie_mismatch', []).append(
+                {'generator': name, 'wa': wa, 'wb': wb, 'shifts': shifts, 'cycle': c, 'netlist': got[c], 'model': mod['trace'][c], 'steps': steps[:c + 1]})
+    return n, bad
 
 
 def main(ctx):
@@ -146,7 +222,11 @@ def main(ctx):
                       lambda v: v[0] + v[1], rng, limit, 'cla_adder', {'la_unit_len': ul})
         comb_case(ctx, 'kogge_stone_cin', [wa, wb, 1], lambda i: adders.kogge_stone(i[0], i[1], i[2]),
                   lambda v: v[0] + v[1] + v[2], rng, limit, 'kogge_stone')
-        comb_case(ctx, 'tree_multiplier', [wa, wb], lambda i: multipliers.tree_multiplier(i[0], i[1]), lambda v: v[0] * v[1], rng, limit)
+        comb_case(ctx, 'tree_multiplier', [wa, wb], lambda i: multipliers.tree_multiplier(i[0], i[1]), lambda v: v[0] * v[1], rng, limit,
+                  'tree_multiplier')
+        if rng.random() < 0.4:
+            comb_case(ctx, 'tree_multiplier_ripple', [wa, wb], lambda i: multipliers.tree_multiplier(i[0], i[1], adder_func=adders.ripple_add),
+                      lambda v: v[0] * v[1], rng, limit, 'tree_multiplier', {'final_adder': 'ripple_add'})
         if rng.random() < 0.4:
             comb_case(ctx, 'tree_multiplier_dada', [wa, wb],
                       lambda i: multipliers.tree_multiplier(i[0], i[1], reducer=adders.dada_reducer, adder_func=adders.ripple_add),
@@ -164,21 +244,34 @@ def main(ctx):
                   lambda v: v[0] * v[1] + v[2], rng, limit)
         for red in (adders.wallace_reducer, adders.dada_reducer):
             comb_case(ctx, 'fast_group_adder_' + red.__name__, [wa, wb, wc],
-                      lambda i, red=red: adders.fast_group_adder(i, reducer=red), lambda v: sum(v), rng, limit)
+                      lambda i, red=red: adders.fast_group_adder(i, reducer=red), lambda v: sum(v), rng, limit,
+                      'fast_group_adder' if red is adders.wallace_reducer else None)
     quads = [tuple(rng.randint(1, 4) for _ in range(4)) for _ in range(ctx.n(10, 60))]
     for q in quads:
-        comb_case(ctx, 'fast_group_adder4', list(q), lambda i: adders.fast_group_adder(i), lambda v: sum(v), rng, limit)
+        comb_case(ctx, 'fast_group_adder4', list(q), lambda i: adders.fast_group_adder(i), lambda v: sum(v), rng, limit, 'fast_group_adder')
+        n_ops = rng.randint(5, 9)
+        ws_ = [rng.randint(1, 3) for _ in range(n_ops)]
+        comb_case(ctx, 'fast_group_adder%d' % n_ops, ws_, lambda i: adders.fast_group_adder(i, final_adder=adders.ripple_add), lambda v: sum(v), rng, min(limit, 8),
+                  'fast_group_adder', {'final_adder': 'ripple_add'})
         comb_case(ctx, 'generalized_fma', list(q) + [rng.randint(1, 4)],
                   lambda i: multipliers.generalized_fma([(i[0], i[1]), (i[2], i[3])], [i[4]]),
                   lambda v: v[0] * v[1] + v[2] * v[3] + v[4], rng, limit)
-        comb_case(ctx, 'fast_group_adder2', list(q[:2]), lambda i: adders.fast_group_adder(i), lambda v: sum(v), rng, limit)
+        comb_case(ctx, 'fast_group_adder2', list(q[:2]), lambda i: adders.fast_group_adder(i), lambda v: sum(v), rng, limit, 'fast_group_adder')
+    sq_n = sq_bad = 0
     for (wa, wb) in [(a, b) for a in range(1, ctx.n(5, 8)) for b in range(1, ctx.n(5, 8))]:
         seq_case(ctx, 'simple_mult', wa, wb, None, rng)
+        if wa > 1 and wb > 1:      # 1-bit operands take the combinational shortcut (_trivial_mult), not the state machine
+            n_, b_ = seq_tie(ctx, 'simple_mult', wa, wb, None, rng)
+            sq_n, sq_bad = sq_n + n_, sq_bad + b_
         for sh in range(1, min(wa, wb) + 1):
             if rng.random() < 0.5:
                 seq_case(ctx, 'complex_mult', wa, wb, sh, rng)
+                n_, b_ = seq_tie(ctx, 'complex_mult', wa, wb, sh, rng)
+                sq_n, sq_bad = sq_n + n_, sq_bad + b_
     tb, tn = getattr(ctx, 'tie_bad', 0), getattr(ctx, 'tie_n', 0)
     ctx.oblige('tie:real adder netlists = Lean bit-list models', tb == 0, '%d/%d (generator, widths) tables differ' % (tb, tn))
+    ctx.oblige('tie:simple_mult/complex_mult netlists = Lean SeqMult model (random start/operand histories)', sq_bad == 0,
+               '%d/%d histories differ' % (sq_bad, sq_n))
     if tb and not ctx.violations:
         ctx.extra['tie_only_examples'] = getattr(ctx, 'tie_only', [])[:3]
     ctx.oblige('property:every generator exact on every explored width/value', not ctx.violations, '%d generator instances' % len(ctx.distinct))
